@@ -30,6 +30,7 @@ func scOverrides() map[string]any {
 		"smart_contracts.minersc.block_reward":           2.3e-9, // 23 units
 		"smart_contracts.minersc.share_ratio":            0.3,
 		"smart_contracts.minersc.num_sharders_rewarded":  2,
+		"smart_contracts.storagesc.max_stake":            0.1, // 10^9 units (min_stake stays 0.01 = 10^8 units)
 	}
 }
 
@@ -40,9 +41,9 @@ func mkWorld() *world.World {
 // registration of two genesis miners and both sharders; c3 is everybody's delegate wallet.
 func rootRegister(w *world.World) []chainsim.Action {
 	return []chainsim.Action{
-		addNode(w, "m0", false, "c3", 0.1, 2),
+		addNode(w, "m0", false, "c3", 0.5, 2),
 		addNode(w, "m1", false, "c3", 0, 2),
-		addNode(w, "s0", true, "c3", 0.1, 2),
+		addNode(w, "s0", true, "c3", 0.25, 2),
 		addNode(w, "s1", true, "c3", 0.5, 2),
 	}
 }
@@ -141,7 +142,13 @@ func c11(run *ev.Run) {
 	run.Rule = "BFS over all sequences up to the depth bound of stake lock / unlock / collect_reward / fee payment transactions of 4 clients on a registered miner and sharder (amounts around min_stake 10 and max_stake 100, delegate limit 2, owner / stranger / delegate wallet / repeated unlock), one real Chain.UpdateState per transition; oracle: reference ledger per (provider, delegate) and per account, written from the statement"
 	core := []chainsim.Action{lock(w, "c0", "m0", 10), lock(w, "c0", "m0", 50), lock(w, "c0", "m0", 51), lock(w, "c1", "m0", 100), lock(w, "c2", "m0", 10), lock(w, "c0", "s0", 10),
 		unlock(w, "c0", "m0"), unlock(w, "c1", "m0"), unlock(w, "c2", "m0"), collect(w, "c0", "m0"), collect(w, "c3", "m0"), payFees(w, 0, "m0", 0, "c2", 7)}
+	storageActors(w)
+	sroot := []chainsim.Action{addBlobber(w, "b0", "c3", 2), addValidator(w, "v0", "c3"), sLock(w, "c0", "b0", 5e8)}
+	sacts := []chainsim.Action{sLock(w, "c0", "b0", 99999999), sLock(w, "c0", "b0", 1e8), sLock(w, "c0", "b0", 5e8), sLock(w, "c0", "b0", 6e8),
+		sLock(w, "c1", "b0", 1e9), sLock(w, "c2", "b0", 1e8), sLock(w, "c0", "v0", 1e8), sLock(w, "c0", "b1", 1e8),
+		sUnlock(w, "c0", "b0"), sUnlock(w, "c1", "b0"), sUnlock(w, "c2", "b0"), sUnlock(w, "c0", "v0"), sCollect(w, "c0", "b0"), sCollect(w, "c3", "b0")}
 	explorePhases(run, w, []phase{
+		{"storage", sacts, [][]chainsim.Action{sroot}, run.Pick(3, 4), secs(run, 30, 200)},
 		{"fresh-core", core, [][]chainsim.Action{rootRegister(w)}, run.Pick(4, 5), secs(run, 40, 400)},
 		{"fresh-full", acts, [][]chainsim.Action{rootRegister(w)}, run.Pick(2, 4), secs(run, 20, 200)},
 		{"staked-with-rewards", append(acts, extra...), [][]chainsim.Action{mid}, run.Pick(3, 4), secs(run, 40, 300)},
@@ -194,10 +201,23 @@ func c23(run *ev.Run) {
 	run.Rule = "BFS over all sequences up to the depth bound of kill_miner / kill_sharder by contract owner, delegate wallet, the provider itself and a stranger (also with the id of the other provider type, of an unregistered node, and repeated), interleaved with fee payments, unlock, collect and lock; oracle: an accepted kill comes from the owner, marks exactly that provider and its stake pool dead, leaves every other record untouched, delegate balances are not reduced (no slash configured in the miner contract) and never again by a repeated kill; a refused kill changes nothing; a dead provider's unpaid rewards never grow"
 	ka := killAlphabet(w)
 	core := []chainsim.Action{ka[0], ka[1], ka[3], ka[4], ka[7], ka[8], ka[10], ka[11], ka[12], ka[13], ka[14]}
+	storageActors(w)
+	sroot := []chainsim.Action{addBlobber(w, "b0", "c3", 2), addBlobber(w, "b1", "c3", 2), addValidator(w, "v0", "c3"),
+		sLock(w, "c0", "b0", 4e8), sLock(w, "c1", "b0", 6e8+1), sLock(w, "c0", "v0", 2e8)}
+	var sa []chainsim.Action
+	for _, who := range []string{"owner", "c3", "b0", "c2"} {
+		sa = append(sa, sCall(w, who, "shutdown_blobber", "b0"))
+	}
+	for _, who := range []string{"owner", "c3", "c2"} {
+		sa = append(sa, sCall(w, who, "kill_blobber", "b0"), sCall(w, who, "shutdown_validator", "v0"))
+	}
+	sa = append(sa, sCall(w, "owner", "kill_validator", "v0"), sCall(w, "c2", "kill_validator", "v0"), sCall(w, "owner", "kill_blobber", "b1"),
+		sCall(w, "c3", "shutdown_blobber", "b1"), sCall(w, "owner", "kill_validator", "b0"), sUnlock(w, "c0", "b0"), sLock(w, "c2", "v0", 1e8))
 	explorePhases(run, w, []phase{
-		{"kill-full", ka, [][]chainsim.Action{rootStaked(w), withRewards}, run.Pick(3, 4), secs(run, 40, 500)},
-		{"kill-core", core, [][]chainsim.Action{withRewards}, run.Pick(4, 5), secs(run, 40, 300)},
-	}, killMonitor)
+		{"kill-full", ka, [][]chainsim.Action{rootStaked(w), withRewards}, run.Pick(3, 4), secs(run, 40, 400)},
+		{"kill-core", core, [][]chainsim.Action{withRewards}, run.Pick(4, 5), secs(run, 40, 250)},
+		{"storage", sa, [][]chainsim.Action{sroot}, run.Pick(3, 4), secs(run, 30, 200)},
+	}, killMonitor, storageKillMonitor)
 }
 
 // --- C09 (part minersc) --------------------------------------------------------------------------
